@@ -105,6 +105,17 @@ func c19Gen(r *RNG, id string) *Case {
 	case "variants", "variants-agg":
 		base = genVarCase(r, id, varOpts{fmtWeights: [2]int{1, 1}, withIns: r.Bool(), maxGenes: 3})
 		base.SetBool("agg", kind == "variants-agg")
+		if base.Get("refmode") == "msa" && r.Chance(1, 2) {
+			// an alignment that holds nothing but the reference record: the header is the only thing written
+			names := strings.Split(base.Get("names"), ",")
+			seqs := strings.Split(base.Get("seqs"), ",")
+			for i, n := range names {
+				if n == base.Get("refname") {
+					base.Set("names", n).Set("seqs", seqs[i])
+				}
+			}
+			base.Tag("reference-record-alone")
+		}
 	case "toma", "toma-wrap":
 		base = tomaGen(r, id, false)
 		if kind == "toma-wrap" {
